@@ -182,3 +182,17 @@ prop("C13",
      level_text="Theorem for every mount table on the reset model (exactly the tmpfs targets are cleaned, in order, success only without failure) tied to the regenerated handleReset by kernel evaluation (filter, path join, order, error reply at first failure); DupToMemfd's create-copy-seal-rewind order with close on every failing path on regenerated code; every modifying operation denied under the compiled seal set; hostile trees + host-side inspection of the mounts, sealed memfd attacked through the descriptor, /proc/self/fd and from the exec'd program",
      level_note="PARTIAL: proof about the model/regenerated glue + differential; kernel unlink/seal semantics assumed",
      technique="Lean 4 proof on the reset model + decide +kernel on regenerated Go-lite code + hostile-tree differential")
+
+prop("C20",
+     trusted_base=["hand model Model/Cgroup.lean: ownership over histories (`ostep`: one atomic mkdir per directory, Destroy's loop, external mkdir/rmdir), the two-creator stat/mkdir interleaving system, cpu.stat parsing",
+                   "Go-lite runs of the regenerated V2.CPUUsage, EnsureDirExists, V1.Destroy, V1.AddProc (Gen.C20)",
+                   "tie: histories replayed on the REAL cgroup v1 hierarchies and on a real cgroup2 mount in a private mount namespace, compared with `ostep` (Existing(), directories removed) and with an independent bookkeeping oracle; 16-way concurrent creators; parsers on crafted files vs the regenerated code"],
+     assumptions=["mkdir(2)/rmdir(2) are atomic; nobody outside removes a group a live handle created (external removals only of groups no handle made)",
+                  "a handle is not used after Destroy (a second Destroy would rmdir the path again)",
+                  "usage_usec*1000 < 2^64 (584 years of CPU time) — the uint64 result wraps beyond",
+                  "the v2 hierarchy of this machine has no controllers delegated: v2 limit files are covered by crafted directories (hook VerifNewV2At), not by the kernel"],
+     not_covered="kernel cgroup accounting itself; v2 limit enforcement by the kernel (no controllers on this machine's cgroup2)",
+     level_text="Theorems for every history of mkdirs (arbitrarily interleaved creators), Destroys and external changes: every directory a Destroy removes was made by that very handle, never a pre-existing one; live handles never share a created directory; a handle on an existing group removes nothing; every interleaving of two concurrent creators has exactly one creator with the atomic mkdir (and a double-owner witness for the pinned stat-then-MkdirAll); any CPU value returned is 1000 x a usage_usec field; regenerated Destroy/EnsureDirExists/AddProc facts by kernel evaluation; differential on real v1 and v2 hierarchies",
+     level_note="Trusted: Lean kernel; hand model tied by differential on the real hierarchies; kernel mkdir/rmdir atomicity assumed. Three defects repaired (fix: commits)",
+     technique="Lean 4 proofs by induction over operation histories + exhaustive interleaving exploration (decide) + Go-lite on regenerated code + differential on real cgroup hierarchies",
+     timeout={"quick": 900, "thorough": 3600})
